@@ -781,7 +781,7 @@ def gen_hyph():
     # a dictionary with NON-STANDARD hyphenation points (hungarian "vissza" breaks as "visz-sza"): the lookup rewrites
     # the word around the break, from data held in the process-wide dictionary cache
     css = page_css(200, 150, 10) + "html, body { margin: 0; font-family: ahem; font-size: 10px; line-height: 10px }\np { margin: 0 0 10px 0; hyphens: auto; width: 50px }\n"
-    body = '<p lang="hu">visszaemlekezesekkel</p><p lang="hu">asszonnyal visszavonhatatlanul hosszabbitassal</p><p lang="en">hyphenation</p><p lang="en">aa extraordinary</p><p lang="en">extra&shy;ordinary hyphenation extraordinary&shy;ly long</p><p lang="en">hyphenation a</p><p lang="en">abcdefgh --</p><p lang="en">circumstances !</p><p lang="en">consideration &#x2026;</p>'
+    body = '<p lang="hu">visszaemlekezesekkel</p><p lang="hu">asszonnyal visszavonhatatlanul hosszabbitassal</p><p lang="en">hyphenation</p><p lang="en">aa extraordinary</p><p lang="en">extra&shy;ordinary hyphenation extraordinary&shy;ly long</p><p lang="en">hyphenation a</p><p lang="en">abcdefgh --</p><p lang="en">circumstances !</p><p lang="en">consideration &#x2026;</p><p lang="en">hyphenation extraordinary&shy;</p><p lang="en">extra&shy;</p><p lang="en">&shy;</p><p lang="en">ab&shy; cd</p>'
     scenario("hyph-05", "hyph", doc(css, body), expect=dict(page_w=200, page_h=150, margin=True, group="hyph"), engines=["pango", "gotext"])
 
 
@@ -1652,7 +1652,8 @@ def gen_wave4():
     # feat-19: leaders whose text is narrower than a pixel or empty; pag-32: a hidden page box with bleed and marks
     css = page_css(240, 150, 10) + BASE + 'p.l::after { content: leader("."); font-size: 0.5px } p.m::after { content: leader("") } p.n::after { content: leader(dotted) "x"; font-size: 0 } p.o::after { content: leader(" ") "y" }\n'
     W = words("w", 12)
-    scenario("feat-19", "feat", doc(css, '<p class=l>%s</p><p class=m>%s</p><p class=n>%s</p><p class=o>%s</p>' % (W[0], W[1], W[2], W[3]) + para(W[4:])), expect=dict(margin=True, page_w=240, page_h=150, line_height=12, sentinels=W))
+    svgtxt = '<svg xmlns="http://www.w3.org/2000/svg" width="60" height="20"><text><rect width="5" height="5"/></text><text x="30" y="10" text-anchor="middle"><tspan>sv05</tspan><tspan>sv06</tspan></text><text text-anchor="end"><a href="#x"><tspan>sv07</tspan></a></text><text/></svg>'
+    scenario("feat-19", "feat", doc(css, '<p class=l>%s</p><p class=m>%s</p><p class=n>%s</p><p class=o>%s</p>' % (W[0], W[1], W[2], W[3]) + svgtxt + para(W[4:])), expect=dict(margin=True, page_w=240, page_h=150, line_height=12, sentinels=W))
     css = "@page { size: 200px 140px; margin: 10px; visibility: hidden; bleed: 10px; marks: crop cross; background: red }\n" + BASE
     W = words("w", 10)
     scenario("pag-32", "pag", doc(css, para(W[:5]) + para(W[5:])), expect=dict(line_height=12, sentinels=W))
